@@ -132,7 +132,8 @@ def mk(name, **p):
         p['bs'], p['n'], p['mode'], p['K'], ' nested distance' if p.get('nested') else '',
         ' max_parallel=%d' % p['max_parallel'] if p.get('max_parallel') else '')
     return H(name, h_rejection, p, tiers=tiers, bounds=b,
-             finding='C01/inf-tie-placeholder' if region == 'inf' else None)
+             finding='C01/inf-tie-placeholder' if region == 'inf' else None,
+             finding_claims=('is_a_consumed_draw', 'returned_more_often', 'all_strictly_better'))
 
 
 HARNESSES = [
